@@ -1717,6 +1717,12 @@ class multislater(wave_function_auto):
     ) -> jax.Array:
         return jnp.linalg.det(green[jnp.ix_(cre, des)])
 
+    def _green_by_orbital(self, green: jax.Array, ref_det: jax.Array) -> jax.Array:
+        """Places the rows of the half green's function (one per occupied orbital of the
+        reference) at the absolute orbital index, which is how the excitation tables address them."""
+        occ = jnp.nonzero(ref_det, size=green.shape[0])[0]
+        return jnp.zeros((self.norb, self.norb), dtype=green.dtype).at[occ].set(green)
+
     @partial(jit, static_argnums=0)
     def _calc_green_restricted(self, walker: jax.Array, wave_data: dict) -> jax.Array:
         ref_det = wave_data["ref_det"][0]
@@ -1738,6 +1744,7 @@ class multislater(wave_function_auto):
             wave_data["ref_det"],
         )
         green = self._calc_green_restricted(walker, wave_data)
+        green = self._green_by_orbital(green, ref_det[0])
 
         # overlap with the reference determinant
         overlap_0 = (
@@ -1802,6 +1809,10 @@ class multislater(wave_function_auto):
             wave_data["ref_det"],
         )
         green = self._calc_green(walker_up, walker_dn, wave_data)
+        green = [
+            self._green_by_orbital(green[0], ref_det[0]),
+            self._green_by_orbital(green[1], ref_det[1]),
+        ]
 
         # overlap with the reference determinant
         overlap_0 = jnp.linalg.det(
